@@ -113,6 +113,14 @@ func (o *objectGoMapReflect) _put(key reflect.Value, val Value, throw bool) bool
 			if !ok {
 				return false
 			}
+			if o.fieldsValue.IsNil() {
+				// a map that was never made (e.g. an uninitialised struct field): make it if the variable can be set
+				if !o.fieldsValue.CanSet() {
+					o.val.runtime.typeErrorResult(throw, "Cannot set property %v of a nil map", key)
+					return false
+				}
+				o.fieldsValue.Set(reflect.MakeMap(o.fieldsValue.Type()))
+			}
 			o.fieldsValue.SetMapIndex(key, v)
 		} else {
 			o.val.runtime.typeErrorResult(throw, "Cannot set property %v, object is not extensible", key)
